@@ -146,18 +146,19 @@ void h_read_toks (void) { GH (); HAVOC (read_token); read_toks (); VACUITY_CANAR
 #if 1
 void h_finish_terms (void)
 {
-  struct grammar G; struct symbs S; struct symb T[NT]; struct symb *P[NT]; int n, i, j; size_t k;
+  struct grammar G; struct symbs S; struct symb T[NT]; struct symb *P[NT]; int codes[NT]; int n, i, j; size_t k;
   HAVOC (G); HAVOC (S); grammar = &G; symbs_ptr = &S; __CPROVER_assume (G.alloc != NULL);
   __CPROVER_assume (n >= 1 && n <= NT);
-  for (i = 0; i < NT; i++) { HAVOC (T[i]); T[i].term_p = 1; T[i].u.term.term_num = i; P[i] = &T[i]; }
-  for (i = 0; i < n; i++) for (j = 0; j < i; j++) __CPROVER_assume (T[i].u.term.code != T[j].u.term.code);   /* codes are distinct (checked at intake) */
-  /* call-site facts (yaep_read_grammar): user codes are non-negative, `$eof' is -1, and the `error' terminal (-2) is always present */
-  for (i = 0; i < n; i++) __CPROVER_assume (T[i].u.term.code >= TERM_ERROR_CODE);
-  HAVOC (j); __CPROVER_assume (j >= 0 && j < n && T[j].u.term.code == TERM_ERROR_CODE);
+  /* codes first (plain ints), then the symbol records: call-site facts of yaep_read_grammar: codes are distinct (checked at intake),
+     user codes are non-negative, `$eof' is -1, and the `error' terminal (-2) is always present */
+  for (i = 0; i < NT; i++) __CPROVER_assume (codes[i] >= TERM_ERROR_CODE);
+  for (i = 0; i < n; i++) for (j = 0; j < i; j++) __CPROVER_assume (codes[i] != codes[j]);
+  HAVOC (j); __CPROVER_assume (j >= 0 && j < n && codes[j] == TERM_ERROR_CODE);
   /* bound of this stand-in: either every code is within SPAN of the smallest (dense vector of <= SPAN + 1 slots), or some code is
      so large that no vector is built (the span arithmetic must then not overflow for codes up to INT_MAX) */
-  { _Bool dense; if (dense) { for (i = 0; i < n; i++) __CPROVER_assume (T[i].u.term.code <= TERM_ERROR_CODE + SPAN); }
-    else { HAVOC (i); __CPROVER_assume (i >= 0 && i < n && T[i].u.term.code >= SYMB_CODE_TRANS_VECT_SIZE + TERM_ERROR_CODE); } }
+  { _Bool dense; if (dense) { for (i = 0; i < n; i++) __CPROVER_assume (codes[i] <= TERM_ERROR_CODE + SPAN); }
+    else { HAVOC (i); __CPROVER_assume (i >= 0 && i < n && codes[i] >= SYMB_CODE_TRANS_VECT_SIZE + TERM_ERROR_CODE); } }
+  for (i = 0; i < NT; i++) { T[i].term_p = 1; T[i].u.term.term_num = i; T[i].u.term.code = codes[i]; P[i] = &T[i]; }
   S.terms_vlo.vlo_start = (char *) P; S.terms_vlo.vlo_free = (char *) (P + n); S.terms_vlo.vlo_boundary = (char *) (P + NT);
   S.symb_code_trans_vect = NULL;
   symb_finish_adding_terms ();
@@ -166,7 +167,7 @@ void h_finish_terms (void)
       long span = (long) S.symb_code_trans_vect_end - (long) S.symb_code_trans_vect_start;
       VACUITY_CANARY_N ("dense vector built");
       __CPROVER_assert (span >= 1 && span <= SYMB_CODE_TRANS_VECT_SIZE, "vector span is positive and below the documented limit");
-      HAVOC (k); __CPROVER_assume ((long) k < span);
+      HAVOC (k); __CPROVER_assume (k < (size_t) span);
       /* VEC_INV: every slot is NULL or the terminal with exactly that code */
       __CPROVER_assert (S.symb_code_trans_vect[k] == NULL
                         || (S.symb_code_trans_vect[k]->term_p && (long) S.symb_code_trans_vect[k]->u.term.code == (long) S.symb_code_trans_vect_start + (long) k),
